@@ -339,7 +339,10 @@ pub fn damage(r: &mut Rng, d: &mut Vec<u8>, st: &mut Stats) -> String {
     }
     match r.below(13) {
         0 | 1 => {
-            let at = r.below(d.len());
+            // half of the cuts fall right behind a '>' (a torn write is as likely to end a file at
+            // a tag boundary as anywhere else, and that is where parser state changes)
+            let gts: Vec<usize> = (0..d.len()).filter(|i| d[*i] == b'>').collect();
+            let at = if r.bool() && !gts.is_empty() { *r.pick(&gts) + 1 } else { r.below(d.len()) };
             d.truncate(at);
             st.inc("F-TRUNC");
             format!("F-TRUNC at {}", at)
@@ -473,6 +476,18 @@ pub fn damage(r: &mut Rng, d: &mut Vec<u8>, st: &mut Stats) -> String {
                 let at = *r.pick(&hits);
                 d.drain(at..at + t.len());
                 st.inc("F-STRUCT");
+                // one time in four the file also ends right behind the damaged element: at the
+                // next '>' (or the one after it)
+                if r.chance(1, 4) {
+                    let gts: Vec<usize> = (at..d.len()).filter(|i| d[*i] == b'>').take(3).collect();
+                    if !gts.is_empty() {
+                        let cut = *r.pick(&gts) + 1;
+                        d.truncate(cut);
+                        st.inc("F-TRUNC");
+                        st.inc("F-STRUCT+cut");
+                        return format!("F-STRUCT removed {:?} at {}, then F-TRUNC at {}", t, at, cut);
+                    }
+                }
                 return format!("F-STRUCT removed {:?} at {}", t, at);
             }
             "no structure target found".into()
